@@ -124,6 +124,7 @@ func (c *Camera) handle(conn net.Conn, rec *CameraConn, plan CameraPlan, hold ch
 	br := bufio.NewReader(conn)
 	setups := 0
 	challenged := map[string]bool{}
+	challengedTwice := map[string]bool{}
 	nonce := "c0ffee0123456789"
 	for {
 		conn.SetReadDeadline(time.Now().Add(20 * time.Second))
@@ -194,6 +195,9 @@ func (c *Camera) handle(conn net.Conn, rec *CameraConn, plan CameraPlan, hold ch
 				raw, _ := base64.StdEncoding.DecodeString(strings.TrimPrefix(authz, "Basic "))
 				authOK = string(raw) == c.User+":"+c.Pass
 			} else if strings.HasPrefix(authz, "Digest ") {
+				if step >= 0 { // every step issues its own nonce: an answer computed with an older nonce is stale
+					nonce = fmt.Sprintf("c0ffee%02d23456789", step)
+				}
 				want := md5hex(md5hex(c.User+":cam:"+c.Pass) + ":" + nonce + ":" + md5hex(method+":"+between(authz, `uri="`, `"`)))
 				authOK = between(authz, `response="`, `"`) == want && between(authz, `username="`, `"`) == c.User
 			}
@@ -203,14 +207,17 @@ func (c *Camera) handle(conn net.Conn, rec *CameraConn, plan CameraPlan, hold ch
 		switch kind {
 		case "basic", "digest":
 			if !authOK {
-				if challenged[key] && authz != "" { // credentials offered and wrong: keep refusing
+				if challenged[key] && authz != "" && challengedTwice[key] { // credentials offered and wrong again: keep refusing
 					kind = "always401"
 				} else {
+					if challenged[key] && authz != "" {
+						challengedTwice[key] = true
+					}
 					challenged[key] = true
 				}
 				wa := `Basic realm="cam"`
 				if plan.Steps[step] == "digest" {
-					wa = `Digest realm="cam", nonce="` + nonce + `"`
+					wa = `Digest realm="cam", nonce="` + fmt.Sprintf("c0ffee%02d23456789", step) + `", stale=true`
 				}
 				reply(401, "Unauthorized", map[string]string{"WWW-Authenticate": wa}, "")
 				continue
